@@ -238,21 +238,6 @@ take_reset_contract!(handle_take_blended, 2);
 take_reset_contract!(handle_take_err, 3);
 take_reset_contract!(handle_take_errtaken, 4);
 
-// Two-step composition (a failed blend followed by another render request): the second call returns,
-// i.e. never waits (stub_wait panics if it would block forever).
-handle_contract!(handle_failed_blend_then_render_returns, 1, 1, |h| {
-    unsafe { PRE_MODE = 2; }
-    let img = RenderedImage::new(Arc::clone(&h));
-    let pool = JxlThreadPool::none();
-    let r1 = img.blend(Some(Region::with_size(8, 8)), &pool);
-    kani::assume(r1.is_err());
-    let r2 = Arc::clone(&h).run_with_image();
-    kani::cover!(r2.is_err());
-    std::mem::forget(r1);
-    std::mem::forget(r2);
-    std::mem::forget(img);
-});
-
 // ------------------------------------------------------------------------------------------------
 // C13 (and the value half for C03/C15): ImageBuffer float conversions. The f32 replacement grid is charged to the
 // SAME tracker as the integer source (exactly its buffer size), the source's bytes come back, exhaustion is an
